@@ -297,7 +297,15 @@ def _file_case(draw):
 
 
 def t_lines(shard, nshards, seed, ev, known, n=1000):
-    return core.hyp_drive(_case(), check_line, n, seed, ev, known, check_name="lines", max_keys=10)
+    fs = core.hyp_drive(_case(), check_line, n, seed, ev, known, check_name="lines", max_keys=10)
+    if shard == 0:
+        # a fixed family that random generation reaches only now and then: digit runs longer than the
+        # interpreter's integer-conversion limit (4300 digits) in every place an address can hold digits
+        z = "0" * 4400
+        fixed = [z + "1.2.3.4", "1." + z + "2.3.4", "1.2.3." + z + "4", "ip address 10.1.2." + z + "7 255.255.255.0", "1.2.3.4/" + z + "8", "::" + z[:3000] + "1", "2001:db8::1/" + z + "64", "9" * 5000, "router bgp " + "6" * 4500, "$9$" + "Q" * 5000, "$1$" + "a" * 5000 + "$b", "password 7 " + "0" * 4402]
+        cases = [{"line": ln_, "salt": ["s", "", "_x"][i % 3], "features": f_, "undo": u_, "B": 8, "gen": "fixed-long-digits", "asns": None, "reserved": None} for i, ln_ in enumerate(fixed) for f_ in ([True, True, True, True], [False, True, False, False]) for u_ in (False, True)]
+        fs = fs + core.enum_drive(cases, check_line, ev, known, "lines")
+    return fs
 
 
 def t_files(shard, nshards, seed, ev, known, n=100):
